@@ -498,7 +498,11 @@ def set_params(t, spec):
         return False
     for a in ('x', 'y', 'z', 'angle', 'eye', 'interest', 'upvector'):
         if hasattr(fresh, a):
-            setattr(t, a, getattr(fresh, a))
+            cur, new = getattr(t, a), getattr(fresh, a)
+            if isinstance(cur, numpy.ndarray) and isinstance(new, numpy.ndarray) and cur.shape == new.shape and sum(map(ord, repr(spec.get('vals')))) % 2 == 0:
+                cur[...] = new          # an array parameter edited in place (`la.eye[0] = 7`): the same object, other values
+            else:
+                setattr(t, a, new)
     if spec['k'] == 'M':
         t.matrix = numpy.array(fresh.matrix)
     return True
